@@ -91,14 +91,16 @@ Print Assumptions C09_unknown_append_limit.
    Proved: whenever the old code's Write does not refuse — which is decided by keep_accepts o n so sn v,
    see C09_keep_write_iff / C09_keep_roundtrip_total below — the bytes decode under the new schema to the
    value — for every pair of programs related by extendsb and every value in the domain
-       opt_init_unset o   no optional field of the old program is "set" in a fresh NewX() object
-                          (an optional field with a container default would be written by the old
-                          code although the new code never sent it),
+       opt_defaults_ok o n   (Wire/UnknownDomain.v) an optional field of the old program that is already
+                          "set" in a fresh NewX() object (a container default) is written by the old code
+                          although the new code never sent it: the declared default must read back, under
+                          the new schema, as that default (checked by running the models on the default;
+                          trivially true when no such field exists: C09_opt_init_unset_defaults_ok),
        keepable n t v     no nil struct pointer in a position where Thrift writes one anyway (such a
                           value is not a fixpoint of write/read even without evolution) and no two map
                           keys that fall together when written (enum keys beyond int32). *)
 Theorem C09_keep_roundtrip : forall o n so sn v w x w',
-  extendsb o n = true -> wf_env o = true -> wf_env n = true -> opt_init_unset o = true ->
+  extendsb o n = true -> wf_env o = true -> wf_env n = true -> opt_defaults_ok o n = true ->
   find_struct o (s_name sn) = Some so -> find_struct n (s_name sn) = Some sn ->
   wt n sn v = true -> keepable n (TRef (s_name sn)) v = true ->
   to_wire n sn v = Ok w -> read_new_keep o so w = KOk x -> to_wire_keep o so x = KOk w' ->
@@ -108,7 +110,7 @@ Print Assumptions C09_keep_roundtrip.
 
 (* the same for a value of any type at any nesting depth (list element, map key or value, field) *)
 Theorem C09_keep_roundtrip_w : forall o n,
-  extendsb o n = true -> wf_env o = true -> wf_env n = true -> opt_init_unset o = true ->
+  extendsb o n = true -> wf_env o = true -> wf_env n = true -> opt_defaults_ok o n = true ->
   forall v t key w x,
     wt_val n key t v = true -> keepable n t v = true -> closed_ty o t = true ->
     to_w n t v = Ok w -> from_wk o t w = KOk x ->
@@ -119,7 +121,7 @@ Print Assumptions C09_keep_roundtrip_w.
 
 Theorem C09_keep_roundtrip_refuted :
   exists o n so sn v w x,
-    extendsb o n = true /\ wf_env o = true /\ wf_env n = true /\ opt_init_unset o = true /\
+    extendsb o n = true /\ wf_env o = true /\ wf_env n = true /\ opt_defaults_ok o n = true /\
     find_struct o (s_name sn) = Some so /\ find_struct n (s_name sn) = Some sn /\
     wt n sn v = true /\ keepable n (TRef (s_name sn)) v = true /\
     to_wire n sn v = Ok w /\ read_new_keep o so w = KOk x /\
@@ -127,6 +129,10 @@ Theorem C09_keep_roundtrip_refuted :
     to_wire_keep o so x = KErr (KStd (EUnionCount 0)).
 Proof. exact keep_union_refuted. Qed.
 Print Assumptions C09_keep_roundtrip_refuted.
+
+Theorem C09_opt_init_unset_defaults_ok : forall o n, opt_init_unset o = true -> opt_defaults_ok o n = true.
+Proof. exact opt_init_unset_defaults_ok. Qed.
+Print Assumptions C09_opt_init_unset_defaults_ok.
 
 (* ---- when does the old code's Write accept what it read?  (Wire/UnknownDomain.v)
    writable e t x: everywhere inside x, every union has exactly one DECLARED member set (members kept
@@ -141,7 +147,7 @@ Print Assumptions C09_write_ok_writable.
 (* the classification: for the object the old code holds after reading what the new code wrote, Write
    succeeds EXACTLY when the object is writable *)
 Theorem C09_keep_write_iff : forall o n,
-  extendsb o n = true -> wf_env o = true -> wf_env n = true -> opt_init_unset o = true ->
+  extendsb o n = true -> wf_env o = true -> wf_env n = true -> opt_defaults_ok o n = true ->
   forall v t key w x,
     wt_val n key t v = true -> keepable n t v = true -> closed_ty o t = true ->
     to_w n t v = Ok w -> from_wk o t w = KOk x ->
@@ -153,7 +159,7 @@ Print Assumptions C09_keep_write_iff.
    holds after reading what the new code wrote for v is writable.  (C09_keep_roundtrip_refuted is the
    case keep_accepts = false: C09_keep_accepts_examples.) *)
 Theorem C09_keep_roundtrip_total : forall o n so sn v,
-  extendsb o n = true -> wf_env o = true -> wf_env n = true -> opt_init_unset o = true ->
+  extendsb o n = true -> wf_env o = true -> wf_env n = true -> opt_defaults_ok o n = true ->
   find_struct o (s_name sn) = Some so -> find_struct n (s_name sn) = Some sn ->
   wt n sn v = true -> keepable n (TRef (s_name sn)) v = true ->
   keep_accepts o n so sn v = true ->
@@ -164,7 +170,7 @@ Print Assumptions C09_keep_roundtrip_total.
 
 (* chains of any length, decidable hypotheses only, no assumption about any outcome *)
 Theorem C09_chain_total : forall o n so sn,
-  extendsb o n = true -> wf_env o = true -> wf_env n = true -> opt_init_unset o = true ->
+  extendsb o n = true -> wf_env o = true -> wf_env n = true -> opt_defaults_ok o n = true ->
   find_struct o (s_name sn) = Some so -> find_struct n (s_name sn) = Some sn ->
   forall k v, chain_dom_total o n so sn k v -> chain o n so sn k v = KOk (iter_norm n sn k v).
 Proof. exact chain_total. Qed.
@@ -192,7 +198,7 @@ Print Assumptions C09_keep_reads_new.
 
 (* ---- chains new -> old(keep) -> new -> old(keep) -> new ... of ANY length (the property asks for 3) ---- *)
 Theorem C09_chain : forall o n so sn,
-  extendsb o n = true -> wf_env o = true -> wf_env n = true -> opt_init_unset o = true ->
+  extendsb o n = true -> wf_env o = true -> wf_env n = true -> opt_defaults_ok o n = true ->
   find_struct o (s_name sn) = Some so -> find_struct n (s_name sn) = Some sn ->
   forall k v x, chain_dom n sn k v -> chain o n so sn k v = KOk x -> x = iter_norm n sn k v.
 Proof. exact chain_any_length. Qed.
@@ -213,7 +219,7 @@ Print Assumptions C09_carrying_after_read.
 (* ---- the hypotheses are satisfiable, and the chain of length 3 runs on a concrete pair ---- *)
 
 Example C09_domain_inhabited :
-  extendsb ex2_old ex2_new = true /\ wf_env ex2_old = true /\ wf_env ex2_new = true /\ opt_init_unset ex2_old = true /\
+  extendsb ex2_old ex2_new = true /\ wf_env ex2_old = true /\ wf_env ex2_new = true /\ opt_defaults_ok ex2_old ex2_new = true /\
   find_struct ex2_old (s_name ex2_sn) = Some ex2_so /\ find_struct ex2_new (s_name ex2_sn) = Some ex2_sn /\
   chain_dom ex2_new ex2_sn 3 ex2_v.
 Proof. exact keep_example_domain. Qed.
@@ -222,3 +228,12 @@ Example C09_chain3_runs :
   chain ex2_old ex2_new ex2_so ex2_sn 3 ex2_v = KOk (iter_norm ex2_new ex2_sn 3 ex2_v) /\
   (exists w x, to_wire ex2_new ex2_sn ex2_v = Ok w /\ read_new_keep ex2_old ex2_so w = KOk x /\ carrying x = true).
 Proof. exact keep_example_chain. Qed.
+
+(* the widened schema condition is met by an optional field with a container default, which the
+   earlier condition opt_init_unset excluded *)
+Example C09_widened_domain_example :
+  opt_init_unset ex3_old = false /\ opt_defaults_ok ex3_old ex3_new = true /\
+  extendsb ex3_old ex3_new = true /\ wf_env ex3_old = true /\ wf_env ex3_new = true /\
+  chain_dom_total ex3_old ex3_new ex3_so ex3_sn 2 ex3_v /\
+  chain ex3_old ex3_new ex3_so ex3_sn 2 ex3_v = KOk (iter_norm ex3_new ex3_sn 2 ex3_v).
+Proof. exact widened_domain_example. Qed.
